@@ -79,7 +79,9 @@ func detBytes(n int, label string, ctr ...uint64) []byte {
 	return out[:n]
 }
 
-func detHex(n int, label string, ctr ...uint64) string { return hex.EncodeToString(detBytes(n, label, ctr...)) }
+func detHex(n int, label string, ctr ...uint64) string {
+	return hex.EncodeToString(detBytes(n, label, ctr...))
+}
 
 // relaySet describes the fields every relay proof of one evidence shares (one servicer, one app, one session).
 type relaySet struct {
